@@ -7,6 +7,7 @@ from typing import Optional, Union
 # websocket modules
 from ._abnf import ABNF, STATUS_NORMAL, continuous_frame, frame_buffer
 from ._exceptions import (
+    WebSocketBadStatusException,
     WebSocketConnectionClosedException,
     WebSocketPayloadException,
     WebSocketProtocolException,
@@ -279,6 +280,14 @@ class WebSocket:
                     self.handshake_response = handshake(
                         self.sock, url, *addrs, **options
                     )
+            if self.handshake_response.status in SUPPORTED_REDIRECT_STATUSES:
+                # redirect limit exhausted: a redirect is not an established connection
+                raise WebSocketBadStatusException(
+                    f"Handshake status {self.handshake_response.status}: too many redirects",
+                    self.handshake_response.status,
+                    None,
+                    self.handshake_response.headers,
+                )
             self.connected = True
         except:
             if self.sock:
